@@ -597,6 +597,132 @@ theorem foreign_line_adds_nothing (a b l : Str) (h10 : 10 ∉ l) (h13 : 13 ∉ l
     C09Found.keys_single _ l h10 h13, C09.foreign_lines_ignored _ l hl]
   rfl
 
+/-! #### at the level of the files -/
+
+/-- the key list the read loop makes of a DSB's bytes -/
+def dsbKeysOfBytes (s : Bytes) : List Keylog.Key := getKeysFromString srcHexClass (s.map UInt8.toNat)
+
+theorem go_dsbs (c : Bool) (T : List Bytes) (hT : ∀ s ∈ T, s.all (· < 0x80) = true) (R : List Container.Item) :
+    ∀ tag, Ingest.go srcHexClass c tag (T.map Container.Item.dsb ++ R) =
+      match Ingest.go srcHexClass c (tag + T.length) R with
+      | .error e => .error e
+      | .ok (X, IS) => .ok (T.map (fun s => Item.dsb (dsbKeysOfBytes s)) ++ X, IS) := by
+  induction T with
+  | nil => intro tag; simp only [List.map_nil, List.nil_append, List.length_nil, Nat.add_zero]; cases Ingest.go srcHexClass c tag R <;> rfl
+  | cons s T ih =>
+    intro tag
+    have hs : Ingest.decodeAscii s = .ok (s.map UInt8.toNat) := by
+      unfold Ingest.decodeAscii; rw [if_pos (hT s (by simp))]
+    simp only [List.map_cons, List.cons_append, Ingest.go, hs, ih (fun x hx => hT x (by simp [hx])) (tag + 1),
+      List.length_cons]
+    rw [show tag + 1 + T.length = tag + (T.length + 1) by omega]
+    cases Ingest.go srcHexClass c (tag + (T.length + 1)) R with
+    | error e => rfl
+    | ok v => rfl
+
+/-- **C09 at the level of the files (same block layout).** Two runs: capture files whose readers deliver `n` secrets
+    blocks with the texts `T₁` resp. `T₂` (ASCII) followed by the SAME remaining items `R` (which hold no further secrets:
+    `hR`), and `-s` files `file₁`, `file₂` (or none). If the two key logs — `-s` file then blocks — are alike for every
+    session (`SameView`; `delivery_same_keys_of_text`, `foreign_line_adds_nothing`, `sameView_of_perm_across`), the
+    outcomes are THE SAME: byte-identical output files, or the same abort. Lines may move between the `-s` file and the
+    blocks and between blocks, LF ↔ CRLF, comments come and go, blocks may become empty.
+    NOT covered at file level: a different NUMBER of blocks (`-s` file only ↔ one DSB): the packets then sit at other
+    positions of the capture, `Ingest` numbers them differently (`Pkt.tag`), and equality of the outputs needs the
+    invariance of both session machines under renaming of tags — not proved; at the level of what `run()` hands to the
+    writer the statement is `export_key_delivery_independent` (any numbers of blocks). -/
+theorem export_key_delivery_independent_file (args : Args) (legacy₁ legacy₂ : Bool) (file₁ file₂ : Option Str)
+    (cap₁ cap₂ : Bytes) (T₁ T₂ : List Bytes) (R : List Container.Item) (ended : Option Container.Err)
+    (hr₁ : Container.readPrefix legacy₁ cap₁ = .ok (T₁.map Container.Item.dsb ++ R, ended))
+    (hr₂ : Container.readPrefix legacy₂ cap₂ = .ok (T₂.map Container.Item.dsb ++ R, ended))
+    (hlen : T₁.length = T₂.length)
+    (ha₁ : ∀ s ∈ T₁, s.all (· < 0x80) = true) (ha₂ : ∀ s ∈ T₂, s.all (· < 0x80) = true)
+    (hR : ∀ X IS, Ingest.go srcHexClass args.checksumTest T₁.length R = .ok (X, IS) → ∃ F : List Pkt, X = F.map Item.frame)
+    (hv : SameView ((fileKeysOf file₁).getD [] ++ (T₁.map dsbKeysOfBytes).flatten)
+                   ((fileKeysOf file₂).getD [] ++ (T₂.map dsbKeysOfBytes).flatten)) :
+    exportFile mask H P args legacy₁ file₁ cap₁ = exportFile mask H P args legacy₂ file₂ cap₂ := by
+  unfold exportFile exportFrom
+  split
+  · rfl
+  · unfold Ingest.itemsWith
+    rw [hr₁, hr₂]
+    simp only
+    have g₁ := go_dsbs args.checksumTest T₁ ha₁ R 0
+    have g₂ := go_dsbs args.checksumTest T₂ ha₂ R 0
+    rw [Nat.zero_add] at g₁ g₂
+    rw [← hlen] at g₂
+    rw [g₁, g₂]
+    cases hg : Ingest.go srcHexClass args.checksumTest T₁.length R with
+    | error e => rfl
+    | ok v =>
+      obtain ⟨X, IS⟩ := v
+      obtain ⟨F, rfl⟩ := hR X IS hg
+      simp only
+      cases ended with
+      | some e => rfl
+      | none =>
+        simp only
+        have := export_key_delivery_independent mask H P (Ingest.lookup IS) freshState args (fileKeysOf file₁)
+          (fileKeysOf file₂) (T₁.map dsbKeysOfBytes) (T₂.map dsbKeysOfBytes) F hv
+        simp only [List.map_map, Function.comp_def] at this ⊢
+        rw [this]
+
+/-- **`dsb_only_without_s`, whole program.** Without `-s` the key log is exactly the keys of the capture's secrets
+    blocks: the run is the run with an EMPTY key-log file — whatever the capture (the `-s` default of the repaired tree
+    is `None`; no file system enters `exportFile`). -/
+theorem export_dsb_only_without_s (args : Args) (legacy : Bool) (capture : Bytes) :
+    exportFile mask H P args legacy none capture = exportFile mask H P args legacy (some []) capture := by
+  have hk : fileKeysOf (some []) = some [] := by
+    simp only [fileKeysOf, Option.map_some]
+    congr 1
+  unfold exportFile exportFrom
+  rw [hk]
+  have : ∀ xs inf, framesFrom mask H P freshState args (fileKeysOf none) xs inf =
+      framesFrom mask H P freshState args (some []) xs inf := by
+    intro xs inf
+    unfold framesFrom runFrom body
+    simp only [fileKeysOf, Option.map_none, Option.getD_none, Option.getD_some]
+  split
+  · rfl
+  · split
+    · rfl
+    · rw [this]
+
+/-- … and then the key log at the end of the run is the DSB keys, in capture order -/
+theorem keysOf_without_s (xs : List (Item Keylog.Key)) : keysOf (fileKeysOf none) xs = dsbOnly xs := by
+  simp [keysOf, fileKeysOf]
+
+namespace Ex
+open TLX.Props.C09
+
+/-- non-vacuity, texts: the two-line key log of `Props.C09` as an `-s` file (LF) ↔ no file and two DSBs, the first with
+    CRLF line ends and a comment line in front: the same key list (two keys), so `SameView` holds and
+    `export_key_delivery_independent` applies to ANY packets `F` -/
+theorem delivery_instance :
+    (fileKeysOf (some wPlain)).getD [] ++ (([] : List Str).map (getKeysFromString srcHexClass)).flatten =
+      (fileKeysOf none).getD [] ++
+        ([[35, 32, 120, 13, 10] ++ wL1 ++ [13, 10], wL2].map (getKeysFromString srcHexClass)).flatten ∧
+    ((fileKeysOf (some wPlain)).getD []).length = 2 := by
+  constructor
+  · rw [delivery_keys, delivery_keys]
+    decide +kernel
+  · decide +kernel
+
+theorem delivery_instance_frames (mask : Quic.Dissect.MaskFn) (H : Crypto.Prims) (P : Cipher.Prims)
+    (info : Nat → Pipeline.Info) (prior : Export.Prior) (args : Args) (F : List Pkt) :
+    framesFrom mask H P prior args (fileKeysOf (some wPlain)) (F.map Item.frame) info =
+      framesFrom mask H P prior args (fileKeysOf none)
+        ([[35, 32, 120, 13, 10] ++ wL1 ++ [13, 10], wL2].map (fun t => Item.dsb (getKeysFromString srcHexClass t)) ++
+          F.map Item.frame) info := by
+  have h := export_key_delivery_independent mask H P info prior args (fileKeysOf (some wPlain)) (fileKeysOf none) []
+    ([[35, 32, 120, 13, 10] ++ wL1 ++ [13, 10], wL2].map (getKeysFromString srcHexClass)) F
+    (by
+      have := delivery_instance.1
+      simp only [List.map_nil, List.flatten_nil] at this ⊢
+      rw [this]; exact SameView.rfl' _)
+  simpa using h
+
+end Ex
+
 end C09
 
 end TLX.Props.ExportInputs
